@@ -60,7 +60,41 @@ def cases(tier, seed):
         if where == 'stiff_last' and len(stiffs) < 2:
             continue
         out.append(dict(kind='bay', curved=curved, stiffs=list(stiffs), where=where, seed=seed))
+    # constructed systems through compmech.analysis.static: spring chains (every interior column sums to exactly zero), with null rows,
+    # and the same matrix object modified in place between two solves
+    for n, nullpat, hist in itertools.product([5, 12, 40], ['none', 'third'], ['single', 'inplace_scale', 'inplace_diag']):
+        out.append(dict(kind='chain', n=n, null=nullpat, hist=hist, seed=seed))
     return out
+
+
+def check_chain(case):
+    from compmech.analysis import static
+    from scipy.sparse import csr_matrix
+    n = case['n']
+    T = 2.0 * np.eye(n) - np.eye(n, k=1) - np.eye(n, k=-1)
+    Kd = 64.0 * T.dot(T)                      # pentadiagonal, positive definite, interior column sums exactly zero
+    if case['null'] == 'none':
+        idx = np.arange(n); N = n
+    else:
+        idx = np.array([i + i // 2 for i in range(n)]); N = int(idx[-1]) + 2
+    Kb = np.zeros((N, N)); Kb[np.ix_(idx, idx)] = Kd
+    f = np.zeros(N); f[idx] = np.cos(1.0 + 0.7 * np.arange(n))
+    fails = []
+    K = csr_matrix(Kb)
+    ctx = dict(case=case)
+    incs, cs = static(K, f.copy(), silent=True)
+    check_solution(K, f, np.asarray(cs[0], dtype=float), fails, ctx, what='static solution of a spring chain')
+    execs = 1
+    if case['hist'] != 'single':
+        # the same matrix object, values changed in place (sparsity pattern kept), solved again
+        if case['hist'] == 'inplace_scale':
+            K *= 0.8
+        else:
+            K.setdiag(K.diagonal() * 1.5)
+        incs, cs = static(K, f.copy(), silent=True)
+        execs += 1
+        check_solution(K, f, np.asarray(cs[0], dtype=float), fails, ctx, what='static solution after the matrix was modified in place')
+    return dict(fails=fails[:4], execs=execs, transitions=execs, nontrivial=1)
 
 
 def unit_work(uvw_fn, size, forces, inc, nd=3):
@@ -285,4 +319,4 @@ def check_bay(case):
 
 
 def check_case(case):
-    return dict(panel=check_panel, assembly=check_assembly, bay=check_bay)[case['kind']](case)
+    return dict(panel=check_panel, assembly=check_assembly, bay=check_bay, chain=check_chain)[case['kind']](case)
